@@ -30,10 +30,14 @@ MANIFEST = dict(
          "sample i is kept by rejection sampling iff u_i < w_i/w_max (so the maximum-weight sample is kept for every "
          "u in [0,1), a zero-weight sample never, at least one sample is kept, indices strictly increasing); a multinomial "
          "draw returns i iff u lies in [cdf_(i-1), cdf_i), an interval of length w_i/sum(w), never a zero-weight sample; "
-         "exactly n draws, by default floor(ESS) which lies in [1,N]; returned samples are nested[indices]; the ESS the code "
+         "the default number of draws floor(ESS) lies in [1,N] (that exactly n indices come back is how the model is "
+         "built - one table look-up per uniform for the first n uniforms - and is checked on the real call by the tie); "
+         "returned samples are nested[indices]; the ESS the code "
          "computes equals Kish's (sum w)^2/sum w^2, lies in [1,N] (Cauchy-Schwarz) and, like both samplers, is invariant "
-         "under scaling all weights (shifting all log-weights); log-space tests of the code are equivalent to the linear "
-         "ones (over the reals). The model is tied to the code by running the real functions (and the real "
+         "under scaling all weights. List-level bridge over the reals (log-values with -inf entries, np.max, logsumexp = "
+         "log sum exp, draws u = 0): the code's log-space rejection test, choice probabilities and ESS formula equal the "
+         "linear-domain model on exp(log_w), and are unchanged when all log-weights are shifted by a constant. "
+         "The model is tied to the code by running the real functions (and the real "
          "ImportanceNestedSampler.draw_posterior_samples on a stub sampler with a real _INSIntegralState) with scripted "
          "uniforms (np.random.rand, and random_sample inside the real RandomState.choice) and comparing indices and sample "
          "ids exactly, ESS against the exact rational under 1e-9 relative. Probabilities are reduced to the deterministic "
